@@ -699,7 +699,7 @@ func (m *Module) EmitGenConvert(x Value, typ ValueType) (insts []wat.Inst) {
 		insts = append(insts, wat.NewInstAnd(wat.I32{}))
 		return
 
-	case typ.Equal(m.I32), typ.Equal(m.U32), typ.Equal(m.RUNE):
+	case typ.Equal(m.I32), typ.Equal(m.RUNE):
 		insts = append(insts, x.EmitPush()...)
 		switch {
 		case xt.Equal(m.U8), xt.Equal(m.U16), xt.Equal(m.I32), xt.Equal(m.U32), xt.Equal(m.RUNE): //Todo:xt.Equal(m.I8), xt.Equal(m.I16),
@@ -713,6 +713,23 @@ func (m *Module) EmitGenConvert(x Value, typ ValueType) (insts []wat.Inst) {
 
 		case xt.Equal(m.F64):
 			insts = append(insts, wat.NewInstConvert_i32_trunc_f64_s())
+		}
+		return
+
+	case typ.Equal(m.U32):
+		insts = append(insts, x.EmitPush()...)
+		switch {
+		case xt.Equal(m.U8), xt.Equal(m.U16), xt.Equal(m.I32), xt.Equal(m.U32), xt.Equal(m.RUNE): //Todo:xt.Equal(m.I8), xt.Equal(m.I16),
+			break
+
+		case xt.Equal(m.I64), xt.Equal(m.U64):
+			insts = append(insts, wat.NewInstConvert_i32_wrap_i64())
+
+		case xt.Equal(m.F32):
+			insts = append(insts, wat.NewInstConvert_i32_trunc_f32_u())
+
+		case xt.Equal(m.F64):
+			insts = append(insts, wat.NewInstConvert_i32_trunc_f64_u())
 		}
 		return
 
@@ -749,10 +766,10 @@ func (m *Module) EmitGenConvert(x Value, typ ValueType) (insts []wat.Inst) {
 			break
 
 		case xt.Equal(m.F32):
-			insts = append(insts, wat.NewInstConvert_i64_trunc_f32_s())
+			insts = append(insts, wat.NewInstConvert_i64_trunc_f32_u())
 
 		case xt.Equal(m.F64):
-			insts = append(insts, wat.NewInstConvert_i64_trunc_f64_s())
+			insts = append(insts, wat.NewInstConvert_i64_trunc_f64_u())
 		}
 		return
 
